@@ -206,7 +206,7 @@ def solve_eigen(A: spmatrix,
 
     if x is not None and I is not None:
         L, X = solver(A, M, **kwargs)
-        y = np.tile(x.copy()[:, None], (1, X.shape[1]))
+        y = np.tile(x.astype(np.result_type(x, X))[:, None], (1, X.shape[1]))
         if isinstance(I, tuple):
             np.add.at(y, I[0], np.array([I[1](x) for x in X.T]).T)
         else:
@@ -226,11 +226,12 @@ def solve_linear(A: spmatrix,
         solver = solver_direct_scipy(**kwargs)
 
     if x is not None and I is not None:
-        y = x.copy()
+        sol = solver(A, b, **kwargs)
+        y = x.astype(np.result_type(x, sol))
         if isinstance(I, tuple):
-            np.add.at(y, I[0], I[1](solver(A, b, **kwargs)))
+            np.add.at(y, I[0], I[1](sol))
         else:
-            y[I] = solver(A, b, **kwargs)
+            y[I] = sol
         return y
     return solver(A, b, **kwargs)
 
